@@ -12,10 +12,10 @@ stref_t __CPROVER_uninterpreted_at_key(type_t, slist_t);
 
 /* submachine.process_event_internal(evt, source = EVENT_SOURCE_DEFAULT)  -- the submachine's own unit (queue.spec.h) */
 HandledEnum sub_process_event_internal(stref_t sub, event_t evt, EventSource source)
-__CPROVER_requires(sub == at_key(current_state_type, g_slist))                    /*@ob C07.forwarded-to-the-active-submachine-of-this-row */
+__CPROVER_requires(sub == at_key(current_state_type, g_slist))                    /*@ob C07,C01.forwarded-to-the-active-submachine-of-this-row */
 __CPROVER_requires((source & EVENT_SOURCE_DIRECT) == 0)                           /*@ob C07.forwarded-event-is-not-a-direct-call */
 __CPROVER_requires(EV_EQ(evt, g_evt))                                             /*@ob C07,C18.same-event-and-payload-forwarded */
-__CPROVER_requires(g_sub_calls == 0)                                              /*@ob C07.submachine-offered-the-event-exactly-once */
+__CPROVER_requires(g_sub_calls == 0)                                              /*@ob C07,C06,C01.submachine-offered-the-event-exactly-once */
 __CPROVER_assigns(g_sub_calls, g_sub_ret, g_exc)
 __CPROVER_ensures(g_sub_calls == 1 && 0 <= g_sub_ret && g_sub_ret <= 7 && (int)__CPROVER_return_value == g_sub_ret)
 ;
@@ -29,7 +29,7 @@ HandledEnum frow_execute(fsm_t* fsm, int region_index, int state, event_t evt)
 __CPROVER_requires(__CPROVER_is_fresh(fsm, sizeof(*fsm)) && 0 <= region_index && region_index < NR_CAP)
 __CPROVER_requires(g_sub_calls == 0 && !g_exc && EV_EQ(evt, g_evt) && fsm->m_substate_list == g_slist)
 __CPROVER_assigns(g_sub_calls, g_sub_ret, g_exc, fsm->m_states[region_index])
-__CPROVER_ensures(g_sub_calls == 1)                                                              /*@ob C07.submachine-offered-the-event-exactly-once */
-__CPROVER_ensures(!g_exc ==> (int)__CPROVER_return_value == g_sub_ret)                           /*@ob C07.inner-result-returned-unchanged */
+__CPROVER_ensures(g_sub_calls == 1)                                                              /*@ob C07,C06,C01.submachine-offered-the-event-exactly-once */
+__CPROVER_ensures(!g_exc ==> (int)__CPROVER_return_value == g_sub_ret)                           /*@ob C07,C06,C01.inner-result-returned-unchanged */
 __CPROVER_ensures(!g_exc ==> fsm->m_states[region_index] == get_state_id(stt, T1))               /*@ob C07.submachine-remains-the-active-state */
 ;
